@@ -128,34 +128,43 @@ def rule_a1(F):
         def copies(t):
             d = mir.callee_def(t) or ""
             return "ind" in t["f"] or hir.last(d) in ("copy_nonoverlapping", "copy", "clone")
-        nb = len(lg.blocks)
-        sin = [set() for _ in range(nb)]
-        sin[0] = {(None, False)}
-        work = [0]
-        bad_pre, finals = [], set()
-        while work:
-            bi = work.pop()
-            blk = lg.blocks[bi]
-            if blk.get("cleanup"):
-                continue
-            t = blk["term"]
-            out = set(sin[bi])
-            if t["k"] == "call":
-                tg = tag_of(t)
-                if tg is not None:
-                    out = {(tg, c_) for _, c_ in out}
-                elif copies(t):
-                    if any(last != none_idx for last, _ in out):
-                        bad_pre.append(t.get("line"))
-                    out = {(last, True) for last, _ in out}
-            if t["k"] == "return":
-                finals |= out
-            for sx in mir.succs(blk):
-                if lg.blocks[sx].get("cleanup"):
+        bad_pre = []
+
+        def flow(body, states, depth=0):
+            """states at the returns of `body` when entered with `states`; a call of a helper of the ffi module is followed"""
+            nb = len(body.blocks)
+            sin = [set() for _ in range(nb)]
+            sin[0] = set(states)
+            work = [0]
+            fin = set()
+            while work:
+                bi = work.pop()
+                blk = body.blocks[bi]
+                if blk.get("cleanup"):
                     continue
-                if not out <= sin[sx]:
-                    sin[sx] |= out
-                    work.append(sx)
+                t = blk["term"]
+                out = set(sin[bi])
+                if t["k"] == "call":
+                    tg = tag_of(t)
+                    hb = F.body(mir.callee(t) or "") if (mir.callee(t) or "").startswith("value::list::ffi::") and depth < 2 else None
+                    if tg is not None:
+                        out = {(tg, c_) for _, c_ in out}
+                    elif hb is not None and hb.mir and hb.path != body.path:
+                        out = flow(hb, out, depth + 1)
+                    elif copies(t):
+                        if any(last != none_idx for last, _ in out):
+                            bad_pre.append(t.get("line"))
+                        out = {(last, True) for last, _ in out}
+                if t["k"] == "return":
+                    fin |= out
+                for sx in mir.succs(blk):
+                    if body.blocks[sx].get("cleanup"):
+                        continue
+                    if not out <= sin[sx]:
+                        sin[sx] |= out
+                        work.append(sx)
+            return fin
+        finals = flow(lg, {(None, False)})
         rows = {"after copying the element": sorted({str(l) for l, c_ in finals if c_}), "without an element": sorted({str(l) for l, c_ in finals if not c_}),
                 "tag while the element is copied": "None" if not bad_pre else "not None at line %s" % bad_pre[0]}
         r.inst("list_get discriminants", rows)
